@@ -2381,6 +2381,12 @@ SESSION_NATIVE = _native("verif_replay_session_readers", "src/core/global.rs", "
             wrap(0x17, data(0x1f, vec![])), wrap(0x17, data(0x14, vec![4, 0])),
         ];
         pdus.push(vec![]);
+        // PDU kinds only a client sends, echoed by the server: confirm active without and with capability sets, deactivate all, and every other share-control type
+        pdus.push(wrap(0x13, vec![1, 0, 0, 0, 0xea, 0x03, 0, 0, 4, 0, 0, 0, 0, 0]));
+        pdus.push(wrap(0x13, vec![1, 0, 0, 0, 0xea, 0x03, 2, 0, 12, 0, b'r', b'd', 1, 0, 0, 0, 1, 0, 8, 0, 0, 0, 0, 0]));
+        pdus.push(wrap(0x13, vec![1, 0, 0, 0, 0xea, 0x03, 0, 0, 0xff, 0xff, 1, 0, 0, 0, 9, 0, 4, 0]));
+        pdus.push(wrap(0x16, vec![1, 0, 0, 0, 2, 0, b'x', b'y']));
+        for t in 0u16..32 { pdus.push(wrap(0x10 | t, vec![0u8; 24])); pdus.push(wrap(t, vec![0xea, 0x03, 1, 0, 0xea, 0x03, 0, 0, 4, 0, 0, 0, 0, 0])); }
         for p in pdus.iter() {
             for which in 0..6 {
                 let mut c = Client::new(1007, 1003, 800, 600, KeyboardLayout::US, "x");
@@ -4208,4 +4214,44 @@ def tpkt_security_wiring(ctx, mir, stats):
             ok, why = False, "expected exactly one call of Link::start_ssl (found %d)" % len(calls)
         obs.append({"id": "tpkt:%s:certificate-policy-unchanged" % name, "ok": ok, "functions": [f.name], "where": f.name, "needs_native": True, "native": None if ok else TPKT_CERT_NATIVE,
                     "detail": "tpkt::Client::%s passes check_certificate to Link::start_ssl unchanged on every path" % name if ok else "tpkt::Client::%s: %s" % (name, why)})
+    return obs
+
+
+
+# --------------------------------------------------------------------------
+# C05: tpkt::Client::read arithmetic; C06: read layouts never use the write-side array constructor
+# --------------------------------------------------------------------------
+TPKT_READ_NATIVE = _native("verif_replay_tpkt_read_headers", "src/core/tpkt.rs", """
+        use std::io::Cursor;
+        use model::link::Stream;
+        // every action byte class with every small declared length in both fast-path length forms and the slow-path form, followed by 0..4 bytes: value or error, no panic
+        for action in [0u8, 1, 2, 3, 4, 0x40, 0x80, 0xc3, 0xff].iter() {
+            for l in 0u16..12 {
+                for tail in 0usize..5 {
+                    let mut forms: Vec<Vec<u8>> = vec![vec![*action, l as u8], vec![*action, 0x80 | (l >> 8) as u8, l as u8], vec![*action, 0, (l >> 8) as u8, l as u8]];
+                    for f in forms.iter_mut() { for k in 0..tail { f.push(k as u8); } }
+                    for f in forms {
+                        let mut c = Client::new(Link::new(Stream::Raw(Cursor::new(f))));
+                        let _ = c.read();
+                    }
+                }
+            }
+        }""")
+
+
+def no_from_trame_in_layouts(ctx, mir, stats):
+    import layouts
+    obs = []
+    bad = []
+    for name in sorted(layouts.LAYOUTS):
+        cands = [f for f in mir if re.search(r"^%s$" % re.escape(name), f.name)]
+        for f in cands:
+            for b in f.order:
+                t = f.blocks[b].t
+                if t and t["kind"] == "call" and not f.blocks[b].cleanup and re.search(r"data::Array::<.*>::from_trame$", t["func"]) and fp_reachable(f, f.order[0], b, stats):
+                    bad.append((f.name, b))
+    ok = not bad
+    obs.append({"id": "layouts:no-from_trame", "ok": ok, "functions": sorted({x[0] for x in bad}), "where": "record constructors", "needs_native": True, "native": None if ok else SESSION_NATIVE,
+                "detail": "none of the %d record constructors calls Array::from_trame: arrays of a parsed PDU are read through their element factory" % len(layouts.LAYOUTS) if ok else
+                "%s builds an array with Array::from_trame: parsing a server PDU into this layout calls a factory that panics (\"Try reading a non empty array\")" % ", ".join("%s@%s" % x for x in bad)})
     return obs
